@@ -20,10 +20,13 @@ class ToGFA2:
     	If the segment length is not specified in the segment line.
     """
     self._check_overlap()
-    rpos = self.pos + self.overlap.length_on_reference()
+    pos = self.pos
+    rpos = pos + self.overlap.length_on_reference()
     if rpos == self._lastpos_of("from_segment"):
       rpos = gfapy.LastPos(rpos)
-    return [self.pos, rpos]
+    if pos == self._lastpos_of("from_segment"):
+      pos = gfapy.LastPos(pos)
+    return [pos, rpos]
 
   @property
   def to_coords(self):
